@@ -30,7 +30,7 @@ func check(c Case) (class, what string, o obs, err error) {
 	if k.nalts == 0 {
 		return "", "", obs{}, fmt.Errorf("no alternatives: the operation declares no requirements")
 	}
-	key := envKey{decl: k.decl, mode: k.mode, reg: k.reg, undef: k.undef, az: k.az != azAbsent, wiring: k.wiring}
+	key := envKey{decl: k.decl, mode: k.mode, reg: k.reg, undef: k.undef, az: k.az != azAbsent, wiring: k.wiring, naming: k.naming}
 	if k.wiring == wServe && k.level != lvlHandler {
 		return "", "", obs{}, fmt.Errorf("wiring %s gives no Context: handler level only", wiringName[k.wiring])
 	}
@@ -525,7 +525,7 @@ func main() {
 					break // (an operation that declares nothing has no orders to vary; without a Context the order is the tree's own)
 				}
 				nOrders++
-				k := kase{decl: p.key.decl, mode: p.key.mode, reg: p.key.reg, undef: p.key.undef, nalts: st.n, alts: ord, wiring: p.key.wiring}
+				k := kase{decl: p.key.decl, mode: p.key.mode, reg: p.key.reg, undef: p.key.undef, nalts: st.n, alts: ord, wiring: p.key.wiring, naming: p.key.naming}
 				var auths middleware.RouteAuthenticators
 				authOwned, handlerOwned, haveAuth, haveHandler := false, false, false, false
 				for _, j := range p.jobs {
